@@ -313,6 +313,9 @@ func evalSeq(cases []Case, o *common.Options, rep *common.Report, probeKeys map[
 		}
 		rep.Case(c.sig(), accepted > 0 && refused > 0)
 		rep.Count(fmt.Sprintf("seq:psk=%d", c.PSKLen))
+		if c.Fallback {
+			rep.Count("seq:fallback-address")
+		}
 		rep.Count("seq:stores=" + map[[2]bool]string{{true, true}: "both", {true, false}: "tcp", {false, true}: "udp"}[[2]bool{c.TCP, c.UDP}])
 		for _, e := range r.Events {
 			w := strings.Fields(e.Line)[0]
@@ -638,6 +641,9 @@ func probes(pskLen int) ([]Case, map[int]string) {
 			Ops: []string{"update b " + k[0].String(), "tick", "edit J:", "reload"}},
 	}
 	cs = append(cs, Case{Kind: "seq", PSKLen: pskLen, TCP: true, UDP: true, Init: "E", Ops: []string{"add b " + k[3].String(), "tick"}})
+	// unauthenticated connections on a multi-user TCP server with a fallback address, before and after changes
+	cs = append(cs, Case{Kind: "seq", PSKLen: pskLen, TCP: true, UDP: true, Fallback: true, Init: mkDoc([]DocEntry{{"a", k[0]}, {"b", k[1]}}),
+		Ops: []string{"add c " + k[2].String(), "update a " + k[3].String(), "delete b", "tick"}})
 	return cs, map[int]string{0: "shared-key:add", 1: "shared-key:update", 2: "F19:empty-store-file-nil-maps-add-panics"}
 }
 
